@@ -1,6 +1,7 @@
 package main
 
 import (
+	"sync"
 	"encoding/json"
 	"fmt"
 	"os"
@@ -119,17 +120,34 @@ func runCheck(ld *Loaded, db *SpecDB, work string, t0 time.Time) int {
 	batchDischarge(all, work, *flagTimeout, agree, numWorkers())
 	// solver gave up (no model, no proof): one patient retry before the verdict, so that a
 	// loaded machine does not turn a slow proof into an alarm
-	for _, ob := range all {
-		if ob.Status == "unknown" && ob.Expect == "unsat" && ob.File != "" {
-			if _, err := os.Stat(ob.File); err == nil {
+	// The same holds for a "counterexample" that only satisfies the quantifier-free relaxation
+	// of the premises while the solvers gave up on the quantified query: it is a candidate, not
+	// a refutation, so the quantified query gets the patient retry too.
+	{
+		var rwg sync.WaitGroup
+		sem := make(chan struct{}, numWorkers()/2+1)
+		for _, ob := range all {
+			gaveUp := ob.Status == "unknown" || (ob.Status == "failed" && strings.Contains(ob.Backend, "(qf-relaxed)"))
+			if !gaveUp || ob.Expect != "unsat" || ob.File == "" {
+				continue
+			}
+			if _, err := os.Stat(ob.File); err != nil {
+				continue
+			}
+			rwg.Add(1)
+			sem <- struct{}{}
+			go func(ob *Obligation) {
+				defer rwg.Done()
+				defer func() { <-sem }()
 				r, _ := solve(ob.File, 4**flagTimeout, false)
 				if r.verdict == "unsat" {
 					ob.Status, ob.Backend = "discharged", r.backend+"(retry)"
-				} else if r.verdict == "sat" {
+				} else if r.verdict == "sat" && ob.Status == "unknown" {
 					ob.Status, ob.Backend, ob.Model = "failed", r.backend+"(retry)", r.output
 				}
-			}
+			}(ob)
 		}
+		rwg.Wait()
 	}
 	solveS := time.Since(tSolve).Seconds()
 
